@@ -185,12 +185,14 @@ func (e *Engine) checkInverted(
 		go check(ctx, innerCh)
 		select {
 		case result := <-innerCh:
-			// invert result here
-			switch result.Membership {
-			case checkgroup.IsMember:
-				result.Membership = checkgroup.NotMember
-			case checkgroup.NotMember:
-				result.Membership = checkgroup.IsMember
+			// invert result here, but never turn a failed check into a positive answer
+			if result.Err == nil {
+				switch result.Membership {
+				case checkgroup.IsMember:
+					result.Membership = checkgroup.NotMember
+				case checkgroup.NotMember:
+					result.Membership = checkgroup.IsMember
+				}
 			}
 			resultCh <- result
 		case <-ctx.Done():
